@@ -1,6 +1,6 @@
 """H11Protocol / H11WSConnection / ProtocolWrapper (hypercorn/protocol/h11.py, __init__.py):
 C06 keep-alive and pipelining, C07 idle reporting, C13 protocol selection, C02 h11 headers, C18."""
-from pyvc.contracts import Callback, cls, fn
+from pyvc.contracts import specfn, Callback, cls, fn
 
 import importlib.util as _u, os as _o
 _s = _u.spec_from_file_location("a_events", _o.path.join(_o.path.dirname(__file__), "a_events.py"))
@@ -77,17 +77,35 @@ fn(H1 + "._check_protocol", params={"event": REQ}, task="reader", model_opts={"h
    ],
    props=("C04", "C13"))
 
+# last_hdr(hs, n, name): stripped latin-1 value of the last of the first n header lines whose
+# (stripped, lower-cased) name is `name`; '' if there is none
+specfn("last_hdr", ["hs:hdrs", "n:int", "name:str"], rec="n", returns="str",
+       base="''",
+       step="ite(hs[n - 1][0].decode('latin1').strip().lower() == name, hs[n - 1][1].decode('latin1').strip(), last_hdr(hs, n - 1, name))")
+
+# C13: what makes an opening a WebSocket opening, stated on the request alone: a GET whose Upgrade
+# header is "websocket" and whose Connection header lists the token "upgrade" (RFC 6455 4.2.1;
+# tokens are comma separated with optional whitespace, compared case-insensitively)
+WS_OPENING = ("(any(t.strip() == 'upgrade' for t in last_hdr(request.headers, len(request.headers), 'connection').lower().split(',')) "
+              "and last_hdr(request.headers, len(request.headers), 'upgrade').lower() == 'websocket' "
+              "and request.method.decode('ascii').upper() == 'GET')")
+
 fn(H1 + "._create_stream", params={"request": REQ}, task="reader",
    requires=[("create.pre.no-stream", "self.stream is None"),
              ("create.pre.h11", "isinstance(self.connection, h11.Connection) and self.connection.their_state is not h11.IDLE")],
    loops={0: {"locals": {"name": "bstr", "value": "bstr", "sanitised_name": "str"},
+              "invariant": [("C13.h11.header-scan", "upgrade_value == last_hdr(request.headers, _i, 'upgrade') and connection_value == last_hdr(request.headers, _i, 'connection')", "C13")],
               # trusted one-liner about the header scan: a non-empty upgrade_value came from a header
               "exit_assume": ["implies(upgrade_value != '', has_header(request.headers, b'upgrade'))"]}},
    ensures=[
+       # C13.select: the Request goes to a WebSocket stream exactly for a WebSocket opening, and to
+       # an HTTP stream otherwise
+       ("C13.h11.ws-iff-opening", "iff(trace_any('calls', 'c', c[0] == 'WSStream.handle'), " + WS_OPENING + ")", "C13"),
+       ("C13.h11.http-otherwise", "iff(trace_any('calls', 'c', c[0] == 'HTTPStream.handle'), not " + WS_OPENING + ")", "C13"),
        # C06.close-hdr / C18: the request is counted exactly once, before the application can run
        ("C06.count", "self.keep_alive_requests == old(self.keep_alive_requests) + 1", "C06,C18"),
    ],
-   props=("C04", "C01", "C06", "C11", "C18"))
+   props=("C04", "C01", "C06", "C11", "C18", "C13"))
 
 fn(H1 + "._maybe_recycle", params={}, task="app",
    ensures=[
